@@ -14,6 +14,9 @@ int vp_note_index (nsync_atomic_uint32_ *p) {
 	return -1;
 }
 static void flag_interfere (int i, nsync_atomic_uint32_ *p) {
+#ifdef VP_SEQUENTIAL
+	(void) i; (void) p; return;
+#endif
 	/* another thread may notify this note - but only while holding its note_mu, i.e. not while I hold it */
 	if (*p == 0 && !vp_nt.private_[i] && !vp_amu_held (&vp_nt.note[i]->note_mu) && vp_nondet_bool ()) *p = 1;
 }
